@@ -426,6 +426,15 @@ func runC09(s *sim.Sim) {
 			}
 		}
 		wasHandover := v.handover
+		if scen == "restart-then-wipe" && kind == kindClassic && s.Chance(0.5, "num-tokens-reconfigured") {
+			// the operator changed the configured token count while the instance was down (entry LEAVING):
+			// the restart tops the tokens up or trims them
+			v.numTokens += sim.Pick(s, "num-tokens-delta", -2, -1, 1, 2)
+			if v.numTokens < 1 {
+				v.numTokens = 1
+			}
+			s.Probe("restart-with-other-token-count")
+		}
 		w.build(v)
 		v.handover = wasHandover
 		w.markInherited(v)
@@ -513,7 +522,7 @@ func runC09(s *sim.Sim) {
 		// picked tokens this instance still remembers)
 		d := w.desc()
 		for id, x := range d.Ingesters {
-			if scen == "wipe" || scen == "wipe-while-leaving" {
+			if scen == "wipe" || scen == "wipe-while-leaving" || scen == "restart-then-wipe" {
 				break
 			}
 			if id == v.id {
